@@ -136,7 +136,7 @@ CLAIMED["C13"] = dict(
           "ch/maj have their truth tables; schedule recurrence, T1/T2, state rotation, feed-forward, padding byte, threshold "
           "(> 56), big-endian length field and word load. Per class: every structural constructor field is read by hash256(), "
           "tags are pairwise distinct, every collection loop is length-prefixed, optional parts are tagged on both branches, "
-          "no digest reads metadata/names or iterates unsorted keys, cycle bookkeeping is paired. Added later: module constants are resolved before the arithmetic is compared; the in-progress table of the digest context is keyed by the referenced validator, never by a name (cycle-table-key). Also C13.5: hash()/hash256() read every constructor argument they read on the reviewed tree. Also C13.6: the stream position hash256 derives back-reference ids from advances by the length of every write; C13.7 (no fixed-size prefix). Also C13.8: no bounded-destination UTF-8 encoding (encodeInto) in hash.ts."),
+          "no digest reads metadata/names or iterates unsorted keys, cycle bookkeeping is paired. Added later: module constants are resolved before the arithmetic is compared; the in-progress table of the digest context is keyed by the referenced validator, never by a name (cycle-table-key). Also C13.5: hash()/hash256() read every constructor argument they read on the reviewed tree. Also C13.6: the stream position hash256 derives back-reference ids from advances by the length of every write; C13.7 (no fixed-size prefix). Also C13.8: no bounded-destination UTF-8 encoding (encodeInto) in hash.ts. The round function, the schedule and the feed-forward are compared as normalised TERMS (lib/symjs.py: sums modulo 2^32, XOR-of-rotations sets, truth tables of bitwise functions), so inlined or renamed sub-expressions are the same term and a changed operand, rotation or operator is not. Also C13.9: the orders hash()/hash256() sort by are total and host independent - no one-argument localeCompare, a localeCompare comparator has a fallback, default sort only on string arrays (found and guards fix 5832ac5)."),
     note=("Trusted: swc AST; the re-derivation of FIPS 180-4 in rules/c13.py; the 4-entry derived-field table. Not decided: "
           "collision-freedom beyond coverage+framing, buffer arithmetic across block boundaries (boundary-value behaviour), "
           "TextEncoder."),
@@ -181,7 +181,7 @@ CLAIMED["C03"] = dict(
           "in any validate / parseAfterValidation / reportDecodeError or in the error helpers; explicit throws are the three "
           "reviewed post-validation ones; no assignment/delete/mutator call is rooted at an input-derived object; the two "
           "objectKeyOrder branches use the same membership test. The rules found three defect families (10 sites), all "
-          "repaired by fix: commits. Added later: results of a child's parseAfterValidation count as input-derived (opaque leaves and `any` hand the input back) and Object.assign/defineProperty/freeze count as writes to their first argument. Also C03.7: index-signature validators are applied to undeclared keys only. Also C03.8: parseAfterValidation() reads every constructor argument it read on the reviewed tree. Also C03.9: for every value validate() accepts without consulting the wrapped member (null / undefined of an optional field) parseAfterValidation does not delegate to that member; C03.10 (no fixed-size prefix). Also C03.11: no call in validate / parseAfterValidation / reportDecodeError is handed one argument per element of an input-sized array (found and guards fix 6b09ce4: RangeError on > 10^5 invalid items)."),
+          "repaired by fix: commits. Added later: results of a child's parseAfterValidation count as input-derived (opaque leaves and `any` hand the input back) and Object.assign/defineProperty/freeze count as writes to their first argument. Also C03.7: index-signature validators are applied to undeclared keys only. Also C03.8: parseAfterValidation() reads every constructor argument it read on the reviewed tree. Also C03.9: for every value validate() accepts without consulting the wrapped member (null / undefined of an optional field) parseAfterValidation does not delegate to that member; C03.10 (no fixed-size prefix). Also C03.11: no call in validate / parseAfterValidation / reportDecodeError is handed one argument per element of an input-sized array (found and guards fix 6b09ce4: RangeError on > 10^5 invalid items). Also C03.12: validate()/reportDecodeError() read a property of, enumerate or `in`-test their input only under guards that exclude null/undefined (32 uses)."),
     note=("Trusted: swc AST, declared Record<..> annotations, the taint model (no inter-procedural flow beyond the listed "
           "helpers). Not decided: re-validation / idempotence of parsed output, leaf preservation through deepmerge."),
     design="DESIGN.md section 3, C03",
